@@ -5,7 +5,7 @@ From Coq Require Import List Bool.
 Import ListNotations.
 From Stab.model Require Import Base StatusM Readiness StageStat Engine.
 From Stab.model Require Import EngineInv.
-From Stab.proofs Require Import StatusP EngineLegal EngineInvP EngineEx.
+From Stab.proofs Require Import StatusP EngineLegal EnginePush EngineInvP EngineEx.
 
 (* A1. a completed status has no outgoing transition in the published table *)
 Theorem C06_table_completed_no_exit : forall s, is_complete s = true -> valid_transitions s = [].
@@ -51,10 +51,29 @@ Theorem C06_completed_final : forall l w l' w',
         is_complete (t_status tk) = true -> t_status tk' = t_status tk)).
 Proof. exact legal_completed_final. Qed.
 
+(* B3. Whole runs, NO premise on the state: for tasks that never suspend and never jump, every commit of every run
+   from any state without pending re-arm messages (in particular from the initial state of any workflow) — any
+   list of deliveries in any order, redeliveries, crashes after any commit, recovery sweeps, cancels, signals,
+   unpauses — is a legal status transition.  `_partial`: suspending / jumping tasks, store.pause and operator
+   restarts are outside this fragment (B1 covers them under its invariant premise / exempts the re-arms). *)
+Theorem C06_run_legal_partial : forall orc acts s,
+  never_suspends orc -> never_jumps orc -> forallb plain acts = true -> no_rearm_msgs s -> run_legal orc s acts.
+Proof. intros orc acts s. apply run_legal_plain. Qed.
+
+(* and for tasks that never suspend B1 needs no invariant at all *)
+Theorem C06_commit_legal_nosuspend : forall orc s a,
+  never_suspends orc -> ~ delivers_jump s a -> pairwise_legal s (step_trace orc s a).
+Proof. exact commit_legal_nosuspend. Qed.
+
 (* OPEN: the invariant premise of B1 is proved inductive only as a tested candidate (model/EngineInv.v:
    i_running_task holds on every state visited by the correspondence runs); its inductive proof is future work. *)
 
 (* non-vacuity of B1: a full run of the chain workflow is legal step by step, and it does change statuses *)
+Example C06_run_witness :
+  never_suspends ok_oracle /\ never_jumps ok_oracle /\ no_rearm_msgs ex_chain /\
+  forallb plain [Submit; Deliver 1 true; Deliver 2 false; DeliverCut 2 2; Recover; Cancel] = true.
+Proof. repeat split; try discriminate. intros r []. Qed.
+
 Example C06_engine_witness :
   let s0 := step ok_oracle ex_chain Submit in
   running_task_in_running_stage s0 /\ ~ delivers_jump s0 (Deliver 1 true) /\
@@ -67,6 +86,8 @@ Proof.
 Qed.
 
 Print Assumptions C06_commit_legal.
+Print Assumptions C06_run_legal_partial.
+Print Assumptions C06_commit_legal_nosuspend.
 Print Assumptions C06_completed_final.
 Print Assumptions C06_table_completed_no_exit.
 Print Assumptions C06_table_completed_final.
